@@ -20,7 +20,7 @@ M_OPTS = [None, [], ["443:8081"], ["443:8081", "8443:9000"], ["443:8081,", "8443
 def describe(tier):
     return {
         "rule": f"{len(P_OPTS)} -p lists x {len(M_OPTS)} -m variants (absent, bare, pairs with and without trailing commas) x 12 "
-                "connections (TLS 1.2 and QUIC to each of 6 server ports) in one capture, IPv4 (thorough: also IPv6 and TLS 1.3). "
+                "connections (TLS 1.2 and QUIC to each of 6 server ports) in one capture, IPv4 and IPv6 (thorough: further TLS versions). "
                 "non-trivial: a configuration in which at least one flow is exported on a port different from another flow's; "
                 "distinct = distinct (configuration, flow)",
         "exhaustive": True,
@@ -36,9 +36,9 @@ def describe(tier):
 
 
 def cases(tier, seed):
-    variants = [("v4", tls.TLS12, 0xC02F)]
+    variants = [("v4", tls.TLS12, 0xC02F), ("v6", tls.TLS13, 0x1301)]
     if tier == "thorough":
-        variants += [("v6", tls.TLS13, 0x1301), ("v4", tls.TLS10, 0x002F)]
+        variants += [("v4", tls.TLS10, 0x002F), ("v6", tls.TLS12, 0x003C)]
     for var in variants:
         for pi in range(len(P_OPTS)):
             yield {"p": pi, "var": list(var), "seed": seed}
